@@ -1,7 +1,89 @@
-(* family 11: stub, to be filled *)
+(* family 11: reserved CFDP messages (MessageToUserTlv.is_reserved/to_reserved, ReservedCfdpMessage) *)
 From Coq Require Import ZArith List Bool.
-From SP Require Import Base.Result Base.Bytes Run.Marshal.
+From SP Require Import Base.Result Base.Bytes Run.Marshal Run.DispTlv Model.Lv Model.Tlv Model.MsgToUser
+  Spec.TlvSpec Spec.MsgSpec.
 Import ListNotations.
 Open Scope Z_scope.
 
-Definition run_msg (op : Z) (a : args) : args := [[1; 97]].
+Definition msg_view (r : tlv) : args :=
+  [rb (tlv_pack r); tlv_value r; [tlv_packet_len r]; [tlv_type r]].
+
+Definition ubf_l (u : ubf) : list Z := [fst u; snd u].
+
+(* MessageToUserTlv.unpack(data).to_reserved_msg_tlv(), then a parser:
+   [[0]] not reserved, [[1]] parser answered None, [2]::fields otherwise *)
+Definition pipeline {A} (data : bytes) (g : tlv -> res (option A)) (f : A -> args) : args :=
+  ret (fun x => x)
+    (do t <- msg_unpack data;
+     do o <- to_reserved_msg_tlv t;
+     match o with
+     | None => Ok [[0]]
+     | Some r => do x <- g r; Ok (match x with None => [[1]] | Some y => [2] :: f y end)
+     end).
+
+Definition opt_z (o : option Z) : Z := match o with Some x => x | None => -1 end.
+
+Definition run_msg (op : Z) (a : args) : args :=
+  match op with
+  | 1100 => ret msg_view
+              (do id <- ubf_new (int 0 0 a) (int 0 1 a);
+               do s <- lv_new (lst 1 a); do d <- lv_new (lst 2 a);
+               proxy_put_request id s d)
+  | 1101 => ret msg_view proxy_cancel_request
+  | 1102 => ret msg_view (proxy_closure_request (int 0 0 a))
+  | 1103 => ret msg_view (proxy_transmission_mode (int 0 0 a))
+  | 1104 => ret msg_view
+              (do s <- ubf_new (int 0 0 a) (int 0 1 a); do q <- ubf_new (int 0 2 a) (int 0 3 a);
+               originating_transaction_id s q)
+  | 1105 => ret msg_view
+              (do p <- lv_new (lst 0 a); do n <- lv_new (lst 1 a); directory_listing_request p n)
+  | 1106 => ret msg_view
+              (do p <- lv_new (lst 1 a); do n <- lv_new (lst 2 a);
+               directory_listing_response (int 0 0 a) p n)
+  | 1107 => ret msg_view (directory_listing_parameters (int 0 0 a) (int 0 1 a))
+  | 1108 => ret msg_view (proxy_put_response (int 0 0 a) (int 0 1 a) (int 0 2 a))
+  | 1109 => ret msg_view (reserved_new (int 0 0 a) (lst 1 a))
+  | 1110 => ret (fun b => [[b2z b]]) (do t <- msg_new (lst 0 a); is_reserved_cfdp_message t)
+  | 1111 => ret (fun x => x)
+              (do t <- msg_unpack (lst 0 a);
+               do o <- to_reserved_msg_tlv t;
+               match o with
+               | None => Ok [[0]]
+               | Some r =>
+                 do mt <- get_reserved_cfdp_message_type r;
+                 do p <- is_cfdp_proxy_operation r; do d <- is_directory_operation r;
+                 do g <- is_originating_transaction_id r;
+                 do pt <- get_cfdp_proxy_message_type r; do dt <- get_directory_operation_type r;
+                 do gen <- to_generic_msg_to_user_tlv r;
+                 Ok ([[1]; [mt]; [b2z p; b2z d; b2z g]; [opt_z pt]; [opt_z dt]; tlv_value r;
+                      rb (tlv_pack gen)])
+               end)
+  | 1112 => pipeline (lst 0 a) get_originating_transaction_id
+              (fun x => [ubf_l (fst x) ++ ubf_l (snd x)])
+  | 1113 => pipeline (lst 0 a) get_proxy_put_request_params
+              (fun x => [ubf_l (fst (fst x)); snd (fst x); snd x])
+  | 1114 => pipeline (lst 0 a) get_proxy_put_response_params
+              (fun x => [[fst (fst x); snd (fst x); snd x]])
+  | 1115 => pipeline (lst 0 a) get_proxy_closure_requested (fun x => [[x]])
+  | 1116 => pipeline (lst 0 a) get_proxy_transmission_mode (fun x => [[x]])
+  | 1117 => pipeline (lst 0 a) get_dir_listing_request_params (fun x => [fst x; snd x])
+  | 1118 => pipeline (lst 0 a) get_dir_listing_response_params
+              (fun x => [[fst (fst x)]; snd (fst x); snd x])
+  | 1119 => pipeline (lst 0 a) get_dir_listing_options (fun x => [[fst x; snd x]])
+  (* Spec side: the standard's layout of each message kind *)
+  | 1150 => [[0]; reserved_layout MT_PROXY_PUT_REQUEST
+                    (put_request_fields (Z.to_nat (int 0 1 a)) (int 0 0 a) (lst 1 a) (lst 2 a))]
+  | 1151 => [[0]; reserved_layout MT_PROXY_PUT_CANCEL []]
+  | 1152 => [[0]; reserved_layout MT_PROXY_CLOSURE_REQUEST (closure_fields (int 0 0 a))]
+  | 1153 => [[0]; reserved_layout MT_PROXY_TRANSMISSION_MODE (transmission_mode_fields (int 0 0 a))]
+  | 1154 => [[0]; reserved_layout MT_ORIGINATING_TRANSACTION_ID
+                    (originating_id_fields (Z.to_nat (int 0 1 a)) (int 0 0 a)
+                                           (Z.to_nat (int 0 3 a)) (int 0 2 a))]
+  | 1155 => [[0]; reserved_layout MT_DIRECTORY_LISTING_REQUEST (dir_request_fields (lst 0 a) (lst 1 a))]
+  | 1156 => [[0]; reserved_layout MT_DIRECTORY_LISTING_RESPONSE
+                    (dir_response_fields (int 0 0 a) (lst 1 a) (lst 2 a))]
+  | 1157 => [[0]; reserved_layout MT_CUSTOM_LISTING_PARAMETERS (dir_options_fields (int 0 0 a) (int 0 1 a))]
+  | 1158 => [[0]; reserved_layout MT_PROXY_PUT_RESPONSE
+                    (put_response_fields (int 0 0 a) (int 0 1 a) (int 0 2 a))]
+  | _ => [[1; 97]]
+  end.
